@@ -1837,6 +1837,18 @@ def _gen_string(rng, scfg):
     elif scfg['crlf'] == 'cr':
         forbid += b'\n'
     s = _gen_bytes(rng, _gen_len(rng, scfg, 255), scfg['alpha'], forbid)
+    if scfg['crlf'] == 'crlf' and rng.random() < 0.3:
+        # a CR LF pair at the edges of the string and inside it (random bytes rarely put one at the start)
+        where = rng.choice(['start', 'start', 'end', 'middle', 'only'])
+        if where == 'start':
+            s = (b'\r\n' + s)[:254]
+        elif where == 'end':
+            s = s[:252] + b'\r\n'
+        elif where == 'middle':
+            k = len(s) // 2
+            s = (s[:k] + b'\r\n' + s[k:])[:254]
+        else:
+            s = b'\r\n'
     r = rng.random()
     if r < 0.15:
         s = (b'  ' + s)[:254]
